@@ -172,6 +172,111 @@ fn install(inj: &mut InjectorPP, func: usize, site: usize, unchecked: bool) {
     }
 }
 
+
+// ---- many sibling async functions, each with its own fake site ---------------------------------
+pub static BODYM: AtomicUsize = AtomicUsize::new(0);
+pub async fn af_mass<const K: u32>(x: u32) -> u32 {
+    BODYM.fetch_add(1, Ordering::SeqCst);
+    black_box(x).wrapping_mul(3).wrapping_add(K)
+}
+macro_rules! amass {
+    ($($k:literal)*) => {
+        pub const AMASS_N: usize = [$($k),*].len();
+        /// fake site k goes on function k: each arm is its own `async_return!` expression
+        fn amass_install(inj: &mut InjectorPP, k: usize) {
+            match k {
+                $($k => inj.when_called_async(injectorpp::async_func!(af_mass::<$k>(0), u32)).will_return_async(injectorpp::async_return!(6000 + $k, u32)),)*
+                _ => unreachable!(),
+            }
+        }
+        fn amass_await(k: usize, arg: u32) -> Option<u32> {
+            match k {
+                $($k => match first_poll(af_mass::<$k>(arg)) { Poll::Ready(v) => Some(v), Poll::Pending => None },)*
+                _ => None,
+            }
+        }
+    };
+}
+amass!(0 1 2 3 4 5 6 7 8 9 10 11 12 13 14 15 16 17 18 19 20 21 22 23 24 25 26 27 28 29 30 31 32 33 34 35 36 37 38 39 40 41 42 43 44 45 46 47 48 49 50 51 52 53 54 55 56 57 58 59 60 61 62 63);
+
+/// Lifetimes that each fake a list of the sibling functions (an earlier lifetime's fixtures run
+/// again, new ones added): every faked one completes at once with its own value, every other one
+/// is the original, and after scope exit all are original.
+fn execute_mass(sc: &AsyncScenario, sh: &Shared) -> Value {
+    let mut viol: Vec<Value> = Vec::new();
+    let mut digest = 0xA3A55u64;
+    let mut awaits = 0u64;
+    let mut fakes = 0u64;
+    unsafe { libc::alarm(60) };
+    'life: for (li, list) in sc.mass.iter().enumerate() {
+        sh.note(PH_INSTALL, li as u64, 0, 0);
+        let r = catch_unwind(AssertUnwindSafe(|| {
+            let mut inj = InjectorPP::new();
+            let mut bad: Vec<String> = Vec::new();
+            let mut live = vec![false; AMASS_N];
+            for (oi, k) in list.iter().enumerate() {
+                sh.note(PH_INSTALL, li as u64, oi as u64, *k as u64);
+                amass_install(&mut inj, *k % AMASS_N);
+                live[*k % AMASS_N] = true;
+            }
+            sh.note(PH_CALL_LIVE, li as u64, 0, 0);
+            for k in 0..AMASS_N {
+                let before = BODYM.load(Ordering::SeqCst);
+                let got = amass_await(k, 5);
+                let ran = BODYM.load(Ordering::SeqCst) - before;
+                if live[k] {
+                    if got != Some(6000 + k as u32) || ran != 0 {
+                        bad.push(format!("faked sibling #{k}: first poll gave {:?} (original body ran {ran}x), its fake completes at once with {}", got, 6000 + k as u32));
+                    }
+                } else if got != Some(15 + k as u32) || ran != 1 {
+                    bad.push(format!("sibling #{k}, not faked in this lifetime: first poll gave {:?} (original body ran {ran}x), the original gives {}", got, 15 + k as u32));
+                }
+            }
+            sh.note(PH_DROP, li as u64, 0, 0);
+            drop(inj);
+            bad
+        }));
+        fakes += list.len() as u64;
+        awaits += AMASS_N as u64;
+        digest = digest.rotate_left(5) ^ (list.len() as u64 * 31 + li as u64);
+        match r {
+            Ok(bad) => {
+                if let Some(b) = bad.first() {
+                    viol.push(json!({"tag": if b.starts_with("faked") { "faked-await-wrong-value" } else { "unfaked-async-function-changed-behaviour" }, "props": if b.starts_with("faked") { json!(["C14"]) } else { json!(["C14", "C03"]) },
+                        "detail": format!("lifetime {li} ({} sibling async functions faked through one injector; {} fake sites seen by this process so far): {} problem(s), first: {b}", list.len(), sc.mass[..=li].iter().flatten().collect::<std::collections::BTreeSet<_>>().len(), bad.len())}));
+                    break 'life;
+                }
+            }
+            Err(p) => {
+                viol.push(json!({"tag": "install-of-async-fake-panicked", "props": ["C14"], "detail": format!("lifetime {li}: {}", panic_msg(&p))}));
+                break 'life;
+            }
+        }
+        sh.note(PH_CALL_AFTER, li as u64, 0, 0);
+        for k in 0..AMASS_N {
+            let before = BODYM.load(Ordering::SeqCst);
+            let got = amass_await(k, 9);
+            if got != Some(27 + k as u32) || BODYM.load(Ordering::SeqCst) - before != 1 {
+                viol.push(json!({"tag": "async-function-not-original-after-scope-exit", "props": ["C14", "C02"], "detail": format!("lifetime {li}: sibling #{k} gives {:?} after the injector went, the original gives {}", got, 27 + k as u32)}));
+                break 'life;
+            }
+        }
+        awaits += AMASS_N as u64;
+    }
+    unsafe { libc::alarm(0) };
+    sh.note(PH_DONE, 0, 0, 0);
+    json!({
+        "violations": viol,
+        "digest": format!("{:016x}", digest),
+        "probes": {"async_fake_sites_in_one_process_history": sc.mass.iter().flatten().collect::<std::collections::BTreeSet<_>>().len(), "fixture_of_an_earlier_lifetime_run_again": sc.mass.len().saturating_sub(1)},
+        "faults": {},
+        "events": awaits,
+        "calls": awaits,
+        "installs_ok": fakes,
+        "installs_refused": 0,
+    })
+}
+
 #[derive(Serialize, Deserialize, Clone, Debug, PartialEq)]
 pub struct AOp {
     /// fake | await
@@ -206,10 +311,46 @@ pub struct AsyncScenario {
     /// Where creating the second injector blocks forever there is nothing to judge.
     #[serde(default)]
     pub nested: Option<usize>,
+    /// non-empty: instead of the lifetimes, one list per lifetime of sibling functions (of
+    /// AMASS_N) to fake, each through its own site, all through one injector
+    #[serde(default)]
+    pub mass: Vec<Vec<usize>>,
     pub classes: Vec<String>,
 }
 
 pub fn generate(profile: &str, seed: u64, index: u64) -> AsyncScenario {
+    if index % 19 == 18 {
+        let mut rng = Rng::new(simos::rng::scenario_seed(seed, &format!("N/async-mass/{profile}"), index));
+        let mut order: Vec<usize> = (0..AMASS_N).collect();
+        for i in (1..order.len()).rev() {
+            let j = rng.below(i as u64 + 1) as usize;
+            order.swap(i, j);
+        }
+        // phase 1: the sites are met a few at a time; phase 2: earlier fixtures run again, then new ones
+        let p1 = 30 + rng.below(20) as usize;
+        let mut mass: Vec<Vec<usize>> = Vec::new();
+        let mut pos = 0;
+        while pos < p1 {
+            let n = (1 + rng.below(8) as usize).min(p1 - pos);
+            mass.push(order[pos..pos + n].to_vec());
+            pos += n;
+        }
+        for _ in 0..1 + rng.below(3) {
+            let mut seen: Vec<usize> = order[..pos].to_vec();
+            for i in (1..seen.len()).rev() {
+                let j = rng.below(i as u64 + 1) as usize;
+                seen.swap(i, j);
+            }
+            let keep = seen.len() / 2 + rng.below(seen.len() as u64 / 2 + 1) as usize;
+            let mut l: Vec<usize> = seen[..keep].to_vec();
+            let fresh = (1 + rng.below(3) as usize).min(AMASS_N - pos);
+            l.extend_from_slice(&order[pos..pos + fresh]);
+            pos += fresh;
+            mass.push(l);
+        }
+        let classes = vec![format!("mass-async-{}-lifetimes-{}-sites", mass.len(), pos)];
+        return AsyncScenario { engine: "N".into(), family: "async".into(), profile: profile.into(), variant: "x86_64-linux-native".into(), seed, index, lifetimes: Vec::new(), nested: None, mass, classes };
+    }
     let mut rng = Rng::new(simos::rng::scenario_seed(seed, &format!("N/async/{profile}"), index));
     let n_l = 1 + rng.below(3) as usize;
     let mut classes = Vec::new();
@@ -265,7 +406,7 @@ pub fn generate(profile: &str, seed: u64, index: u64) -> AsyncScenario {
     if let Some(f) = nested {
         classes = vec![format!("two-injectors-on-one-thread-f{f}")];
     }
-    AsyncScenario { engine: "N".into(), family: "async".into(), profile: profile.into(), variant: "x86_64-linux-native".into(), seed, index, lifetimes, nested, classes }
+    AsyncScenario { engine: "N".into(), family: "async".into(), profile: profile.into(), variant: "x86_64-linux-native".into(), seed, index, lifetimes, nested, mass: Vec::new(), classes }
 }
 
 struct Injected;
@@ -281,6 +422,9 @@ fn panic_msg(p: &Box<dyn std::any::Any + Send>) -> String {
 }
 
 pub fn execute(sc: &AsyncScenario, sh: &Shared) -> Value {
+    if !sc.mass.is_empty() {
+        return execute_mass(sc, sh);
+    }
     let viol: std::cell::RefCell<Vec<Value>> = std::cell::RefCell::new(Vec::new());
     let v = |tag: &str, props: &[&str], detail: String| {
         let mut viol = viol.borrow_mut();
